@@ -1,6 +1,6 @@
 (* C04 — garbage collection never changes what the store contains. *)
 From Coq Require Import List NArith.
-From STH Require Import Log Lex Index Store IndexStore GCIndex Refine GInv PGC5 Full2 Codec Statements.
+From STH Require Import Log Lex Index Store IndexStore GCIndex Scan2 Scan3 Refine GInv PGC5 Full2 Codec Statements Budget Budget2 Statements6.
 Import ListNotations.
 Open Scope N_scope.
 
@@ -28,3 +28,52 @@ Theorem C04_index_gc_keeps_every_record_list :
   forall scanFree ix, IInv' ix -> IInv' (index_gc scanFree ix) /\ same_view ix (index_gc scanFree ix).
 Proof. exact index_gc_spec. Qed.
 Print Assumptions C04_index_gc_keeps_every_record_list.
+
+(* ---- time limits.  A budget is the number of context polls that still succeed ([None]: no limit); the index collector polls
+   once per unreferenced file while it looks for files to empty and once per record while it reaps a file, and remembers the
+   file it was stopped in; the primary collector polls once after every file and remembers the files it has done.
+   [gstep] runs such cycles ([GIgc scanFree budget], [GPgc lowUse budget]) between ordinary operations ([GO op], which
+   include the unlimited cycles, flushes, Close + reopen). ---- *)
+
+(* Histories with time-limited cycles at ANY position, stopped after ANY number of polls and resumed by later cycles, answer
+   call by call like the map, on which every cycle is the identity. *)
+Theorem C04_histories_with_time_limited_gc_answer_like_the_map :
+  forall bits imx pmx imm (U : bytes -> Prop) l,
+    bits < 32 -> 0 < imx -> 0 < pmx -> key_universe U ->
+    gops_ok U (init bits imx pmx imm) l ->
+    grun (init bits imx pmx imm) l = gspec_run imm sempty l.
+Proof. exact store_refines_map_budgeted_gc_pf. Qed.
+Print Assumptions C04_histories_with_time_limited_gc_answer_like_the_map.
+
+(* ... and the foreground answers are those of the same calls with every cycle deleted. *)
+Theorem C04_time_limited_cycles_are_invisible :
+  forall bits imx pmx imm (U : bytes -> Prop) l,
+    bits < 32 -> 0 < imx -> 0 < pmx -> key_universe U ->
+    gops_ok U (init bits imx pmx imm) l ->
+    outs_of_ops l (grun (init bits imx pmx imm) l) = spec_run imm sempty (strip_gc l).
+Proof. exact budgeted_gc_cycles_are_invisible. Qed.
+Print Assumptions C04_time_limited_cycles_are_invisible.
+
+(* One index cycle, interrupted anywhere or resumed from a cursor, keeps every bucket's record list, the bucket table, the
+   write pools and the log-order invariant that makes a rescan rebuild the table. *)
+Theorem C04_interrupted_index_gc_keeps_every_record_list :
+  forall scanFree b ix, IInv' ix -> J ix -> keeps ix (fst (index_gc_b scanFree b ix)).
+Proof. exact index_gc_b_keeps. Qed.
+Print Assumptions C04_interrupted_index_gc_keeps_every_record_list.
+
+(* One primary cycle stopped after any file is a stutter step. *)
+Theorem C04_interrupted_primary_gc_is_a_stutter_step :
+  forall bits (U : bytes -> Prop) lu b s m,
+    R bits U s m -> G s -> R bits U (fst (primary_gc_l lu b s)) m /\ G (fst (primary_gc_l lu b s)).
+Proof. exact primary_gc_l_ok. Qed.
+Print Assumptions C04_interrupted_primary_gc_is_a_stutter_step.
+
+(* the hypotheses are satisfiable by a history whose limited cycles really are interrupted *)
+Theorem C04_time_limited_hypotheses_satisfiable :
+  gops_ok U2 (init 8 40 30 false) budget_witness /\
+  (let s := grun_state (init 8 40 30 false) (firstn 10 budget_witness) in
+   snd (index_gc_b false (Some 1%nat) (sidx s)) = GDeadline /\
+   iresume (fst (index_gc_b false (Some 1%nat) (sidx s))) <> None /\
+   snd (primary_gc_l 50 (Some 0%nat) s) = GDeadline).
+Proof. exact (conj budget_witness_ok budget_witness_interrupted). Qed.
+Print Assumptions C04_time_limited_hypotheses_satisfiable.
